@@ -63,7 +63,7 @@ SPEC = dict(
     ],
     level_text="Certificate checking with a proven-sound checker: for every generated expand call of the exact "
                "integer-exponent fragment the library's result R is accepted only if (1) the rational-function normal "
-               "forms of R and of the input agree, (2) R is structurally expanded, (3) on the polynomial fragment R is "
+               "forms of R and of the input agree, (2) R is structurally expanded, (3) on the polynomial fragment (polynomials in symbols and opaque atoms) R is "
                "entry for entry the rendering of the reduced monomial dictionary of the input. Lean proves: acceptance "
                "implies equal values in every field of characteristic 0 at every assignment where both are defined, "
                "and Expanded R; accepted results of two polynomial inputs are equal iff the dictionaries are equal, "
